@@ -29,8 +29,12 @@ for n in range(4):
 TYPES.append(_t(64, "slice", 50))
 TYPES.append(_t(65, "slice", 51))
 TYPES.append(_t(70, "other"))
+TYPES.append(_t(71, "other", -1, [20]))   # ZI: an int8 with a value-receiver method, implements I0; its scripted value is always zero
 TYPES.append(_t(80, "other"))        # [2]*T0
 TYPES.append(_t(81, "other"))        # Huge = [1<<61]struct{}
+TYPES.append(_t(82, "other"))        # chan *Big, Big = [1<<17]byte (reflect.ChanOf refuses `chan Big`)
+TYPES.append(_t(83, "other"))        # map[string]*T0
+TYPES.append(_t(84, "other"))        # func() *T0
 
 BY_ID = {t["id"]: t for t in TYPES}
 
